@@ -117,6 +117,9 @@ def build_level(seed, n_cases):
             fail_in = 'build' if ci == 0 else rnd.choice(['build', 'package'])       # the failing script: build or package step of that package
             if ci == 1:       # two dependents ask for a package whose PACKAGE step fails, one after the other
                 names = ['p0', 'a', 'b', 'c']; deps = {'p0': ['a', 'b'], 'a': ['c'], 'b': ['c'], 'c': []}; fail = 'c'; fail_in = 'package'
+            if ci == 2:       # a failure deep below one branch while the other branch keeps the job slots busy: slots are neither lost nor duplicated
+                names = ['p0', 'bad', 'boom', 'good'] + ['l%d' % i for i in range(1, 7)]
+                deps = {'p0': ['bad', 'good'], 'bad': ['boom'], 'boom': [], 'good': ['l%d' % i for i in range(1, 7)]}; deps.update({'l%d' % i: [] for i in range(1, 7)}); fail = 'boom'; fail_in = 'build'
             R = {}
             for nm in names:
                 # the failing script fails at once, the others take a while: a failure must not take down unrelated running steps
@@ -178,7 +181,7 @@ def replay(rep):
             return {'reproduced': True, 'tried': tried,
                     'witness': {'recursive': recursive, 'tokens_in_pipe': toks, 'task_scripts(delay,hold)': scripts, 'foreign(take,return_delays)': ext, 'observed': v}}
         if tried > 15000: break
-    nb = 7 if os.environ.get('VERIF_TIER') == 'thorough' else 3
+    nb = 8 if os.environ.get('VERIF_TIER') == 'thorough' else 4
     w = build_level(seed, nb)
     if w is not None: return {'reproduced': True, 'tried': tried + 1, 'witness': w}
     return {'reproduced': False, 'tried': tried + nb * 6, 'bound': 'semaphore schedules up to the stated search bound + %d generated DAGs (3-6 packages, optional failing step) built with -j 1/2/4, with and without -k' % nb,
